@@ -247,7 +247,11 @@ class Algebra:
 
     @cached_property
     def matrix_basis(self):
-        return matrix_rep(self.p, self.q, self.r, signature=self.signature)
+        blades = None
+        if self.basis:
+            # Generators (as positions in the signature) of every basis blade, in the spelling and order of the custom basis.
+            blades = [[int(v, base=16) - self.start_index for v in eJ[1:]] for eJ in self.canon2bin]
+        return matrix_rep(self.p, self.q, self.r, signature=self.signature, blades=blades)
 
     @cached_property
     def frame(self) -> list:
